@@ -85,6 +85,27 @@ example : (match checkedDoc (nodeAttr "bind".toList "foo".toList ['a', Char.ofNa
 example : (match checkedDoc (nodeText "label".toList "<b> & ]]> \r 😀".toList) with | .ok _ => true | _ => false) = true := by
   decide
 
+/-! ## 2c. attribute values that go through `insert_xpaths` (`jr:noAppErrorString`, `bind::x`, `body::x` …) -/
+
+/-- **`insert_xpaths` on a cell `t0 ${n1} t1 … ${nk} tk`** (k ≥ 0): the literal chunks stay where they are, each
+    reference is replaced by its xpath, nothing else happens -/
+theorem insert_xpaths_cell (refs : List (Str × Str)) (c : Cell) (items : List (Str × Str))
+    (hh : hasDollarBrace c.head = false) (ht : TailOk c.tail) (hr : resolve refs c.tail = some items) :
+    insertXpaths refs c.text = some (c.head ++ itemsAttr items) := by
+  have := SubRTo.text (subRTo_tail refs c.tail items ht hr) (tailText_head c.tail) c.head hh
+  exact this _ (by simp [Cell.text])
+
+/-- … and the reader recovers exactly that string from the attribute (TAB/LF/CR normalised), as the only attribute:
+    the text of the cell cannot add or rename an attribute or create a child -/
+theorem attr_refs_channel (refs : List (Str × Str)) (tag k : Str) (c : Cell) (items : List (Str × Str))
+    (htag : isName tag = true) (hk : isName k = true)
+    (hh : hasDollarBrace c.head = false) (ht : TailOk c.tail) (hr : resolve refs c.tail = some items)
+    (hx : ∀ ch ∈ c.head ++ itemsAttr items, isXmlChar ch = true) :
+    ∃ v, insertXpaths refs c.text = some v ∧
+      parseDoc (renderDoc false (nodeAttr tag k v)) =
+        some (.elem tag [(k, normAttrVal (c.head ++ itemsAttr items))] []) :=
+  ⟨_, insert_xpaths_cell refs c items hh ht hr, attr_channel tag k _ htag hk hx⟩
+
 /-! ## 3. the mixed channel: `insert_output_values` + `node(tag, …, toParseString=…)` -/
 
 /-- the cell holds no instance() expression: its escaped text is short or does not contain `instance(`
@@ -707,6 +728,15 @@ example : (match mixedChannel exRefs "label".toList exCellBad.text with | .pyxfo
 example : mixedChannel exRefs "label".toList exCell.text = .ok (.elem "label".toList [] (cellKids true exCell.head exItems)) := by
   rw [mixed_channel_total exRefs _ exCell exItems (by decide) exCell_ok.shape exCell_noInstance, exCell_ok.texts_valid]
   rfl
+
+-- `insert_xpaths` / attribute channel with references at the adversarial cell
+example : insertXpaths exRefs exCell.text = some (exCell.head ++ itemsAttr exItems) :=
+  insert_xpaths_cell exRefs exCell exItems exCell_ok.head.1 exCell_ok.tail exCell_ok.resolved
+example : ∃ v, insertXpaths exRefs exCell.text = some v ∧
+    parseDoc (renderDoc false (nodeAttr "bind".toList "jr:noAppErrorString".toList v)) =
+      some (.elem "bind".toList [("jr:noAppErrorString".toList, normAttrVal (exCell.head ++ itemsAttr exItems))] []) :=
+  attr_refs_channel exRefs _ _ exCell exItems (by decide) (by decide) exCell_ok.head.1 exCell_ok.tail exCell_ok.resolved
+    (by decide +kernel)
 
 #print axioms mixed_channel
 #print axioms mixed_channel_total
